@@ -162,12 +162,28 @@ func (c *Ctx) Who(rule string, m M, what string, allowed ...string) int {
 		return true
 	}
 	var sites []site
+	var originBuilt map[*ssa.Function]bool
+	instSeen := map[string]bool{}
 	for _, fn := range c.P.AllFuncs {
-		if fn.Synthetic != "" && fn.Parent() == nil {
+		if fn.Synthetic != "" && fn.Parent() == nil && fn.Origin() == nil {
 			continue // wrappers, bound thunks: the reference inside is to themselves
 		}
-		if fn.Origin() != nil {
-			continue // generic instantiation: the origin is scanned
+		if o := fn.Origin(); o != nil {
+			// generic instantiation: the origin is scanned instead if it was built; otherwise
+			// (methods of a generic type that is only used instantiated) one instance stands
+			// for all of them
+			if originBuilt == nil {
+				originBuilt = map[*ssa.Function]bool{}
+				for _, f2 := range c.P.AllFuncs {
+					if f2.Origin() == nil {
+						originBuilt[f2] = true
+					}
+				}
+			}
+			if originBuilt[o] || instSeen[QName(fn)] {
+				continue
+			}
+			instSeen[QName(fn)] = true
 		}
 		for _, b := range fn.Blocks {
 			for _, in := range b.Instrs {
